@@ -174,6 +174,32 @@ MUTANTS = [
      r'\.expect\("only the child watcher sends 3"\)\s*\.join\(\)', '.unwrap()\n                .join()', None),
     ("bridge-connect-child-required", "varlink-cli/src/proxy.rs",
      r"let child_watch = conn\.child\.take\(\)\.map\(\|mut child\| \{", "let mut child = conn.child.take().unwrap();\n    let child_watch = Some(()).map(|_| {", {"C18"}),
+    # ---- C09 (unit gen + bounded audits) ----
+    ("gen-header-written-before-parsing", "varlink_generator/src/lib.rs",
+     r"(reader\.read_to_string\(&mut buffer\)\.map_err\(Error::Io\)\?;)", r'\1' + "\n    writer.write_all(b\"// generated\\n\").map_err(Error::Io)?;", {"C09"}),
+    ("gen-parse-error-swallowed", "varlink_generator/src/lib.rs",
+     r"(pub fn generate_with_options\(.*?)let idl = IDL::try_from\(buffer\.as_str\(\)\)\.map_err\(Error::Parse\)\?;",
+     r'\1let idl = match IDL::try_from(buffer.as_str()) { Ok(i) => i, Err(_) => return Ok(()) };', {"C09"}),
+    ("gen-generate-ignores-tosource", "varlink_generator/src/lib.rs",
+     r"(pub fn generate\(.*?\.\.Default::default\(\)\s*\},\s*)tosource,", r"\1true,", {"C09"}),
+    ("gen-output-written-twice", "varlink_generator/src/lib.rs",
+     r"(\n    writer\s*\.write_all\(ts\.to_string\(\)\.as_bytes\(\)\)\s*\.map_err\(Error::Io\))\n", r"\1?;\n    writer.write_all(ts.to_string().as_bytes()).map_err(Error::Io)\n", {"C09"}),
+    ("gen-error-anon-types-thrice", "varlink_generator/src/lib.rs",
+     r"(pub struct #args_name \{\s*#\(#args_anot pub #args_enames: #args_etypes,\)\*\s*\})", r"\1\n            #[allow(dead_code)] pub type VxAlias = ErrorKind; #[allow(dead_code)] pub type VxAlias = ErrorKind;", {"C09"}),
+    # ---- C10 (bounded exhaustive + unit cli) ----
+    ("fmt-display-width-79", "varlink_parser/src/format.rs", r"f\.write_str\(&self\.get_multiline\(0, 80\)\)", "f.write_str(&self.get_multiline(0, 79))", {"C10"}),
+    ("fmt-cli-default-width-100", "varlink-cli/src/main.rs",
+     r'(idl\.get_multiline\(0, line_len\.unwrap_or\("80"\)\.parse::<usize>\(\)\.unwrap_or\()80(\)\))', r"\g<1>100\2", {"C10"}),
+    ("fmt-cli-colored-when-plain", "varlink-cli/src/main.rs",
+     r'idl\.get_multiline\(0, line_len\.unwrap_or\("80"\)', 'idl.get_multiline_colored(0, line_len.unwrap_or("80")', {"C10"}),
+    ("fmt-enum-multiline-drops-last-comma-newline", "varlink_parser/src/format.rs",
+     r'(impl Format for VEnum<\'_> \{.*?fn get_multiline.*?)f \+= &format!\(",\\n\{:indent\$\}\{\}", "", elt, indent = indent \+ 2\);', r'\1f += &format!(", {}", elt);', None),
+    ("fmt-struct-fit-test-off-by-two", "varlink_parser/src/format.rs",
+     r"(impl Format for VStruct<'_> \{.*?fn get_multiline.*?)if line\.len\(\) \+ indent \+ 2 < max \{", r"\1if line.len() + indent < max {", None),
+    ("fmt-option-marker-dropped-multiline", "varlink_parser/src/format.rs",
+     r'(fn get_multiline\(&self, indent: usize, max: usize\) -> String \{\s*match \*self \{.*?)VTypeExt::Option\(ref v\) => format!\("\?\{\}", v\.get_multiline\(indent, max\)\),', r'\1VTypeExt::Option(ref v) => v.get_multiline(indent, max),', {"C10"}),
+    ("fmt-colored-typedef-doc-dropped", "varlink_parser/src/format.rs",
+     r"(impl FormatColored for IDL<'_> \{.*?fn get_multiline_colored.*?for t in self\.typedef_keys.*?)if !t\.doc\.is_empty\(\) \{", r"\1if false {", {"C10"}),
 ]
 
 
